@@ -6,11 +6,19 @@ From Coq Require Import Strings.String Strings.Byte.
 From Coq Require Import List NArith ZArith.
 From Goit Require Import Bytes Sha1 Obj Tree Index Commit Config World Repo BytesFacts ObjFacts TreeFacts CommitFacts.
 From Goit Require Import BranchFacts ExactFacts CommitCmdFacts.
+From Goit Require Import Bridge.
 Import ListNotations.
 
 Definition holds (st : store) (ds : list bytes) : Prop :=
   forall d, In d ds -> st_lookup st (obj_id KTree d) = Some (payload KTree d).
 Definition small (ds : list bytes) : Prop := forall d, In d ds -> (lenN d < 2 ^ 63)%N.
+
+(* T0 (tie to the source): every regexp literal of the current Go source denotes
+   the same language, with the same anchoring, as the pattern of the model — proved
+   by running the verified equivalence checker on SrcRegex.v, which is regenerated
+   from /repo on every run (see Bridge.v) *)
+Theorem C02_source_patterns_are_the_models : source_patterns_agree.
+Proof. exact source_patterns. Qed.
 
 (* T1: the snapshot written for ANY list of staged entries — nested
    directories, components with spaces, dots, dashes, plus signs, parentheses,
@@ -89,3 +97,4 @@ Print Assumptions C02_commit_text_reads_back.
 Print Assumptions C02_commit_spec.
 Print Assumptions C02_commit_records_identity_and_message.
 Print Assumptions C02_commit_effect_order.
+Print Assumptions C02_source_patterns_are_the_models.
